@@ -51,3 +51,43 @@ func H_C05_unknown_field_of_unknown_type() {
 	vAssert("later-fields-undisturbed", ok && g != nil && g.A == 5 && g.P != nil && g.P.N == n && g.P.S == "p")
 	vAssert("ordinals-kept", len(g.L) == 1 && g.L[0] == g.P)
 }
+
+// refClassDefU: refClassDef for field names outside ASCII (string lengths count code points, not octets).
+func refClassDefU(name string, fields []string) []byte {
+	out := append([]byte{'C'}, refStr(name)...)
+	out = append(out, refInt(int32(len(fields)))...)
+	for _, f := range fields {
+		out = append(out, byte(len([]rune(f))))
+		out = append(out, []byte(f)...)
+	}
+	return out
+}
+
+// H_C05_unknown_field_odd_names: the wire field this side lacks has a name no Go field could have: the empty
+// string, one symbolic octet (any of U+0001..U+007F, so digits, '_' and punctuation too), a name starting with a
+// two-octet code point. It is skipped like any other unknown field, before and after known ones.
+func H_C05_unknown_field_odd_names() {
+	tm := map[string]reflect.Type{"ZTriple": reflect.TypeOf(ZTriple{})}
+	var name string
+	switch vChoice("name", 3) {
+	case 0:
+		name = ""
+	case 1:
+		c := vUint8("c")
+		vAssume(c >= 1 && c < 0x80 && c != 'a' && c != 'b' && c != 'c' && c != 'A' && c != 'B' && c != 'C')
+		name = string([]byte{c})
+	case 2:
+		name = "éx"
+	}
+	a, cc := vInt32("a"), vInt64("cc")
+	var wire []byte
+	if vChoice("pos", 2) == 0 {
+		wire = refCat(refClassDefU("ZTriple", []string{name, "a", "b", "c"}), []byte{0x60}, refInt(9), refInt(a), refStr("s"), refLong(cc))
+	} else {
+		wire = refCat(refClassDefU("ZTriple", []string{"a", "b", name, "c"}), []byte{0x60}, refInt(a), refStr("s"), refInt(9), refLong(cc))
+	}
+	out, err := ToObject(wire, tm)
+	vAssert("decode-noerr", err == nil)
+	g, ok := out.(*ZTriple)
+	vAssert("later-fields-undisturbed", ok && g != nil && g.A == a && g.B == "s" && g.C == cc)
+}
